@@ -56,6 +56,12 @@ def build(rng, root):
         f.write(b"this is not a zip archive")
     open(os.path.join(root, "empty.zip"), "wb").close()
     os.makedirs(os.path.join(root, "dir.zip"), exist_ok=True)
+    # a populated directory that is called like an archive: it is a directory, and is searched like one
+    if rng.random() < 0.6:
+        os.makedirs(os.path.join(root, "d2", "libs.jar", "inner"), exist_ok=True)
+        for rel in ("dir.zip/in1.txt", "d2/libs.jar/in2", "d2/libs.jar/inner/in3.rs"):
+            with open(os.path.join(root, rel), "w") as f:
+                f.write("x" * rng.choice([0, 3, 700]))
     return archives
 
 
